@@ -503,7 +503,7 @@ func (g *gen) rangeStmt(depth int) []Node {
 	// subject
 	switch k := g.r.Intn(6); {
 	case k == 0:
-		a := g.r.Intn(4)
+		a := g.r.Intn(7) - 3 // negative limits too: ints(-3, -1) is -3, -2
 		n.Subj = Ints{a, a + 1 + g.r.Intn(3)}
 		elemStr = false
 		g.feat["range-ints"] = true
@@ -685,7 +685,52 @@ func (g *gen) ctxExpr() Expr {
 	return Lit{Str(g.tok("x"))}
 }
 
+// yieldStmt: a yield, sometimes passing arguments the block does not declare. Such an argument is a variable of the
+// block body's scope and of nothing else: a caller's variable of that name is what it was afterwards, a name the caller
+// never declared is gone, and the declared parameters the yield leaves out still get their defaults.
 func (g *gen) yieldStmt(depth int) []Node {
+	out := g.yieldStmt0(depth)
+	if g.r.Intn(4) != 0 {
+		return out
+	}
+	var y *Yield
+	for _, n := range out {
+		if yy, ok := n.(*Yield); ok {
+			y = yy
+		}
+	}
+	if y == nil {
+		return out
+	}
+	var own []string
+	for _, v := range g.visible(KStr, false) {
+		if !strings.HasPrefix(v, "p_") {
+			own = append(own, v)
+		}
+	}
+	for k := 1 + g.r.Intn(2); k > 0; k-- {
+		name := g.tok("xa")
+		if len(own) > 0 && g.r.Intn(3) != 0 {
+			name = g.pick(own)
+		}
+		dup := false
+		for _, a := range y.Args {
+			dup = dup || a.Name == name
+		}
+		if dup {
+			continue
+		}
+		at := g.r.Intn(len(y.Args) + 1)
+		y.Args = append(y.Args[:at], append([]Arg{{Name: name, E: Lit{Str(g.tok("ua"))}}}, y.Args[at:]...)...)
+		g.feat["yield-undeclared-arg"] = true
+		if g.isVisible(name) {
+			out = append(out, &Text{S: "[" + name + " after yield="}, &Print{E: Var{name}}, &Text{S: "]"})
+		}
+	}
+	return out
+}
+
+func (g *gen) yieldStmt0(depth int) []Node {
 	b := g.blocks[g.r.Intn(len(g.blocks))]
 	g.feat["yield"] = true
 	y := &Yield{Name: b.name}
